@@ -88,13 +88,18 @@ func main() {
 }
 
 func loadChecks() map[string]*Check {
-	b, err := os.ReadFile(filepath.Join(verifRoot, "checks.json"))
-	if err != nil {
-		fatal(err)
-	}
-	var cs map[string]*Check
-	if err := json.Unmarshal(b, &cs); err != nil {
-		fatal(fmt.Errorf("checks.json: %v", err))
+	cs := map[string]*Check{}
+	files, _ := filepath.Glob(filepath.Join(verifRoot, "checks", "C*.json"))
+	for _, f := range files {
+		b, err := os.ReadFile(f)
+		if err != nil {
+			fatal(err)
+		}
+		var c Check
+		if err := json.Unmarshal(b, &c); err != nil {
+			fatal(fmt.Errorf("%s: %v", f, err))
+		}
+		cs[strings.TrimSuffix(filepath.Base(f), ".json")] = &c
 	}
 	return cs
 }
